@@ -71,6 +71,42 @@ FOREIGN = {
 }
 
 
+# literals found in a CHANGED keyword function or type predicate (check.py, source tie): values, lengths and
+# names the search for a failing input tries first
+HINTS = {"ints": [], "strs": []}
+
+
+def set_hints(h):
+    HINTS["ints"] = [i for i in h.get("ints", []) if isinstance(i, int)]
+    HINTS["strs"] = [x for x in h.get("strs", []) if isinstance(x, str)]
+    for x in HINTS["strs"]:
+        if x not in NAMES and "%" not in x:
+            NAMES.append(x)
+
+
+def hinted(r):
+    """a value suggested by the hints: the number itself or a neighbour, a string / array / object of that size, the string"""
+    if not (HINTS["ints"] or HINTS["strs"]):
+        return None
+    if HINTS["strs"] and (not HINTS["ints"] or r.random() < 0.4):
+        x = r.choice(HINTS["strs"])
+        return r.choice([x, {x: 1}, [x]])
+    n = r.choice(HINTS["ints"])
+    k = r.randrange(8)
+    if k < 3:
+        return n + r.choice([0, 0, 1, -1])
+    if k == 3:
+        return float(n)
+    m = n + r.choice([0, 0, 0, 1, -1])
+    if 0 <= m <= 20000:
+        if k in (4, 5):
+            return "x" * m
+        if k == 6:
+            return [0] * m if m <= 5000 else "x" * m
+        return dict(("k%d" % i, 0) for i in range(m)) if m <= 3000 else [0] * min(m, 5000)
+    return n
+
+
 def finite(v):
     """replace non-finite floats (products of the boundary arithmetic) by finite ones"""
     if isinstance(v, float) and (v != v or v in (float("inf"), float("-inf"))):
@@ -89,6 +125,8 @@ class G:
     # ------------------------------------------------------------------ values
     def number(self):
         r = self.r
+        if HINTS["ints"] and r.random() < 0.15:
+            return r.choice(HINTS["ints"]) + r.choice([0, 0, 1, -1])
         k = r.randrange(12)
         if k == 0:
             return r.choice([0, 1, -1, 2, 3, 5, 10])
@@ -416,6 +454,10 @@ class G:
     def _instance_for(self, d, s, depth=3):
         """an instance aimed at the decision boundaries of schema s"""
         r = self.r
+        if (HINTS["ints"] or HINTS["strs"]) and r.random() < 0.12:
+            h = hinted(r)
+            if h is not None:
+                return h
         if not isinstance(s, dict) or depth <= 0 or r.random() < 0.07:
             return self.value(1)
         cands = []
